@@ -23,6 +23,7 @@ func init() {
 			"buffer lets two encodings of the same decoded content (reordered fields, unknown fields within the size-check tolerance) carry different hashes while the signature, checked over the re-encoded content, " +
 			"stays valid. (S2) the interceptor/resolver container factories wrap the marshalizer with NewSizeCheckUnmarshalizer (5 reviewed sites). (S3) sizeCheckUnmarshalizer.Unmarshal returns nil only " +
 			"past the inner Unmarshal (error checked) and the size comparison. " +
+			"The size-check wrapper created by each container factory must also be used: stored, passed on or returned, not merely nil-checked. " +
 			"Not decided (value-level): that the size tolerance leaves no room for a second encoding; protobuf decoding leniency itself.",
 		Run: runC18,
 	})
@@ -152,6 +153,11 @@ func runC18(c *core.Ctx) {
 				cc := core.CallOf(in)
 				c.Check(strings.Contains(core.ExprKey(cc.Args[1]), "SizeCheckDelta"), "C18/size-check-installed", fmt.Sprintf("%s/%s#%d", pkg, fname(fn), n), in.Pos(),
 					"the marshalizer handed to interceptors/resolvers is wrapped with the configured SizeCheckDelta", "the size-check wrapper is not given the configured SizeCheckDelta")
+				if v, isV := in.(ssa.Value); isV {
+					c.Check(flowsToSink(v), "C18/size-check-installed", fmt.Sprintf("%s/%s#%d/wrapper-used", pkg, fname(fn), n), in.Pos(),
+						"the wrapper is stored, passed on or returned (not merely nil-checked)",
+						"the size-check wrapper is created but never stored, passed to a component or returned (at most nil-checked): the interceptors keep decoding with the unchecked marshalizer and accept padded encodings under new hashes")
+				}
 			}
 		}
 		if n < want {
@@ -212,4 +218,70 @@ func isByteSlice(t types.Type) bool {
 	}
 	b, ok := s.Elem().Underlying().(*types.Basic)
 	return ok && b.Kind() == types.Uint8
+}
+
+// flowsToSink reports whether a value (through phis and interface conversions) is stored,
+// returned, or passed to a call other than a nil check.
+func flowsToSink(v ssa.Value) bool {
+	seen := map[ssa.Value]bool{}
+	var walk func(x ssa.Value) bool
+	walk = func(x ssa.Value) bool {
+		if seen[x] || x.Referrers() == nil {
+			return false
+		}
+		seen[x] = true
+		for _, r := range *x.Referrers() {
+			switch t := r.(type) {
+			case *ssa.Store:
+				if t.Val == x {
+					// a store into a local that is only read back is followed through its loads
+					if al, ok := t.Addr.(*ssa.Alloc); ok && !al.Heap {
+						if al.Referrers() != nil {
+							for _, ar := range *al.Referrers() {
+								if u, ok := ar.(*ssa.UnOp); ok && walk(u) {
+									return true
+								}
+							}
+						}
+						continue
+					}
+					return true
+				}
+			case *ssa.Return:
+				return true
+			case *ssa.Phi:
+				if walk(t) {
+					return true
+				}
+			case *ssa.ChangeInterface:
+				if walk(t) {
+					return true
+				}
+			case *ssa.MakeInterface:
+				if walk(t) {
+					return true
+				}
+			case *ssa.MakeClosure:
+				return true
+			case ssa.CallInstruction:
+				cc := t.Common()
+				d := core.CallDesc(cc)
+				if d.Name == "IfNil" || d.Name == "IsInterfaceNil" {
+					continue
+				}
+				for _, a := range cc.Args {
+					if a == x {
+						return true
+					}
+				}
+				if cc.IsInvoke() && cc.Value == x {
+					if cc.Method.Name() != "IsInterfaceNil" {
+						return true
+					}
+				}
+			}
+		}
+		return false
+	}
+	return walk(v)
 }
